@@ -237,7 +237,7 @@ func recvObj(c *Ctx, fd *ast.FuncDecl) types.Object {
 }
 
 func ruleSibling6(c *Ctx) {
-	c.R.Rule("SIBLING-6", 4, "thunk calls restore the VM: every field assigned by doCall0 is saved by save() and restored by reset(); call0 saves before and resets after doCall0")
+	c.R.Rule("SIBLING-6", 3, "thunk calls restore the VM: every field assigned by doCall0 is saved by save() and restored by reset(); call0 saves before and resets after doCall0")
 	do, sv, rs, c0 := c.FuncDecl("vm", "VM.doCall0"), c.FuncDecl("vm", "VM.save"), c.FuncDecl("vm", "VM.reset"), c.FuncDecl("vm", "VM.call0")
 	if do == nil || sv == nil || rs == nil || c0 == nil {
 		c.R.Anchor("vm.VM.doCall0/save/reset/call0")
@@ -384,7 +384,7 @@ func hasAssertFalse(c *Ctx, body []ast.Stmt) bool {
 // ---------- SIBLING-9: the two function tables are registered in lock-step ----------
 
 func ruleSibling9(c *Ctx) {
-	c.R.Rule("SIBLING-9", 5, "types.Env and val.Env keep their function tables in lock-step: Expr.RegisterFun registers every value in both tables in one loop; RegisterFun / GetMonoFun / GetPolyFuns of the two environments are equal after renaming FunTy<->FunVal (same key function, mono = overwrite, poly = append) — CallExpr.Index means the same at check time and at run time")
+	c.R.Rule("SIBLING-9", 4, "types.Env and val.Env keep their function tables in lock-step: Expr.RegisterFun registers every value in both tables in one loop; RegisterFun / GetMonoFun / GetPolyFuns of the two environments are equal after renaming FunTy<->FunVal (same key function, mono = overwrite, poly = append) — CallExpr.Index means the same at check time and at run time")
 	norm := func(n ast.Node) string {
 		var list interface{} = n
 		if fd, ok := n.(*ast.FuncDecl); ok {
